@@ -106,9 +106,34 @@ func balanced(window []int, ready []bool) error {
 	return nil
 }
 
-func specSubset(n int) xstate.Spec {
+func specSubset(n int) xstate.Spec { return specSubsetVia(n, "health") }
+
+// objectWith: n servers, the subset lists them all, some carry `disabled: true`
+func objectWith(n int, disabled []bool) *proxyv1alpha1.UpstreamCluster {
+	var servers []proxyv1alpha1.UpstreamClusterServer
+	var names []string
+	for i := 0; i < n; i++ {
+		sv := proxyv1alpha1.UpstreamClusterServer{Endpoint: epName(i)}
+		if disabled[i] {
+			yes := true
+			sv.Disabled = &yes
+		}
+		servers = append(servers, sv)
+		names = append(names, epName(i))
+	}
+	pol := proxyv1alpha1.DispatchPolicy{UpstreamSubset: names, Rules: []proxyv1alpha1.DispatchPolicyRule{{Verbs: []string{"*"}, APIGroups: []string{"*"}, Resources: []string{"*"}, NonResourceURLs: []string{"*"}}}}
+	return kit.Upstream("c14", servers, []proxyv1alpha1.DispatchPolicy{pol})
+}
+
+// specSubsetVia: how an endpoint leaves and re-enters the ready set - "health" (probe results) or "disabled-flag" (the
+// operator sets / clears `disabled: true` on a server that the subset keeps listing; applied by Sync)
+func specSubsetVia(n int, via string) xstate.Spec {
+	name := fmt.Sprintf("subset-k%d", n)
+	if via != "health" {
+		name += "-" + via
+	}
 	return xstate.Spec{
-		Name: fmt.Sprintf("subset-k%d", n),
+		Name: name,
 		New: func() interface{} {
 			s := &sysSub{ci: mkCluster(n, true), n: n, ready: make([]bool, n)}
 			for i := range s.ready {
@@ -129,6 +154,17 @@ func specSubset(n int) xstate.Spec {
 				var i int
 				fmt.Sscanf(e, "flip %d", &i)
 				s.ready[i] = !s.ready[i]
+				if via == "disabled-flag" {
+					dis := make([]bool, n)
+					for k, r := range s.ready {
+						dis[k] = !r
+					}
+					if err := s.ci.Sync(objectWith(n, dis)); err != nil {
+						return fmt.Errorf("sync-failed: %v", err)
+					}
+					s.window = nil
+					return nil
+				}
 				ep, _ := s.ci.Endpoints.Load(epName(i))
 				ep.UpdateStatus(s.ready[i], "", "")
 				s.window = nil
@@ -653,7 +689,7 @@ func main() {
 		"no-subset case: Go leaves sync.Map.Range order unspecified; the shim makes each Range order an enumerated choice; the allowed constant is k! (one strict cursor per ordering)",
 		"readiness flips are applied with EndpointInfo.UpdateStatus (what a probe outcome does)",
 	}
-	specs := []xstate.Spec{specSubset(2), specSubset(3), specSubset(4), specAll(2), specAll(3), specResync()}
+	specs := []xstate.Spec{specSubset(2), specSubset(3), specSubset(4), specAll(2), specAll(3), specResync(), specSubsetVia(3, "disabled-flag"), specSubsetVia(4, "disabled-flag")}
 	if c.ReplayFile() != "" {
 		xstate.ReplayIfAsked(c, specs)
 		xa.ReplayIfAsked(c, allHarnesses(c, 0))
@@ -662,6 +698,8 @@ func main() {
 	tasks = append(tasks, xstate.Tasks(c, specSubset(2), c.Pick(9, 12), 1)...)
 	tasks = append(tasks, xstate.Tasks(c, specSubset(3), c.Pick(9, 12), 4)...)
 	tasks = append(tasks, xstate.Tasks(c, specSubset(4), c.Pick(8, 11), 5)...)
+	tasks = append(tasks, xstate.Tasks(c, specSubsetVia(3, "disabled-flag"), c.Pick(7, 9), 4)...)
+	tasks = append(tasks, xstate.Tasks(c, specSubsetVia(4, "disabled-flag"), c.Pick(6, 8), 5)...)
 	tasks = append(tasks, xstate.Tasks(c, specResync(), c.Pick(8, 11), 6)...)
 	tasks = append(tasks, ev.Task{Name: "many-policies", Run: func() { manyPolicies(c) }})
 	tasks = append(tasks, xstate.Tasks(c, specAll(2), c.Pick(40, 60), 1)...)
